@@ -278,10 +278,18 @@ class ExprGen:
 
     def obj_of(self, tyname, scope):
         r = self.rng
-        sub = {"T": ["t1", "t2", "s1", "s2"], "S": ["s1", "s2"], "U": ["u1"], "E": []}[tyname]
+        fathers = dict((n, f if f != "_" else None) for n, f in map(tuple, self.TYPES))
+
+        def is_sub(t, u):
+            while t is not None:
+                if t == u:
+                    return True
+                t = fathers.get(t)
+            return False
         opts = []
-        for o in sub:
-            opts.append(["o", o, dict(self.OBJECTS)[o]])
+        for o, ot in map(tuple, self.OBJECTS):
+            if is_sub(ot, tyname):
+                opts.append(["o", o, ot])
         for (n, t) in scope:
             if t == ["user", tyname] or (tyname == "T" and t == ["user", "S"]):
                 opts.append(["v", n, t])
